@@ -19,22 +19,37 @@ def oversized_head(good_fields_hex, n=70):
 
 class C07(Prop):
     id = "C07"
-    claim = False
     modules = ["H3.Props.C07"]
     engines = ["iso"]
     design_ref = "DESIGN.md section 7, C07"
-    level_text = ("Lean theorems over the product of k request machines and the error cell: every stream-scoped fault "
-                  "transition returns a stream-level error with the fitting code, leaves the error cell empty and calls neither "
-                  "close nor anything on another stream; the projection of any run onto a healthy stream is the same with and "
-                  "without the fault on another stream, under every interleaving")
-    level_note = ("trusted: Lean kernel + 3 axioms; the request machine and error-cell models (tied by C03/C05 runs); SimQuic "
-                  "scenario runs with 2..4 concurrent requests, any subset faulted, random interleavings and executor orders")
+    level_text = ("Lean theorems over the product machine H3.Iso (any number of request machines = the C03 receive machine over the "
+                  "FrameStream model + a send half, sharing one error cell; the driver closes when it finds the cell filled; histories "
+                  "= arbitrary lists of per-stream peer events, per-stream API polls and driver polls, unbounded): "
+                  "C07_stream_fault_is_local (every stream-scoped fault transition - RESET with any code met at any point of the byte "
+                  "stream by resolve/recv_response/recv_data/recv_trailers/the body loop, STOP_SENDING met by a send call, malformed "
+                  "head or trailers, oversized head (431 written/refused/stopped) or trailers, FIN before HEADERS on a server - "
+                  "answers RemoteTerminate{c} / H3_MESSAGE_ERROR / header-too-big / H3_REQUEST_INCOMPLETE, leaves the cell unchanged, "
+                  "never calls close, touches no other stream), C07_fault_reaction (the reset/stop codes h3 sends, the 431 on that "
+                  "stream only), C07_only_connection_errors_write_cell, C07_neighbours_unaffected (in every history in which no stream "
+                  "is told a connection-level error, what any stream sees = the run of its own events alone = the run without the "
+                  "faulted streams = the run with other faults), C07_interleaving_irrelevant + C07_adjacent_swap (same per-stream "
+                  "event order => same per-stream view, cell, close calls), C07_connection_stays_open (cell empty and no close call "
+                  "after every prefix), C07_healthy_stream_delivers_partial (composition with C03_valid_message_delivered: head, body = "
+                  "its own DATA payloads in order, end, trailers; conditional on C03's frame-layer interface FrameSim and on the "
+                  "stream's own deliveries preceding its own polls)")
+    level_note = ("trusted: Lean kernel + 3 axioms; the request machine, FrameStream and error-cell models (tied by the C02/C03/C05 runs) "
+                  "and the product H3.Iso, whose prediction for every scenario line is compared with the real h3 endpoint by this run "
+                  "(model half of the driver = H3.Iso run on the line); header validity/size is an oracle parameter (C10/C11/C12); "
+                  "granularity = one poll of one task or one transport event, write credit unlimited (C14), grease frame off; real "
+                  "scheduling and timing are not modelled. SimQuic scenario runs with 2..4 concurrent requests, any subset faulted, "
+                  "random interleavings and executor orders")
     rule = ("2..4 concurrent requests on one connection, both roles; each healthy (own random body in random chunks) or "
             "faulted by RESET with an arbitrary code at a random byte offset, STOP_SENDING, a validly encoded malformed head, an "
             "oversized section, or FIN before HEADERS; ops of different streams interleaved at random, executor order seeds; "
             "non-trivial = at least one healthy and one faulted stream in the scenario")
     trusted = []
-    assumptions = ["a RESET may discard data the application had not read yet (QUIC); only the error kind is compared on a faulted stream"]
+    assumptions = ["a RESET may discard data the application had not read yet (QUIC); only the error kind is compared on a faulted stream",
+                   "FIN before HEADERS is stream-scoped on a server only (a client treats it as an invalid frame sequence, R-03)"]
 
     def project(self, line, impl):
         if " | " not in impl:
@@ -87,6 +102,10 @@ class C07(Prop):
                     if m and "err:conn" not in r:
                         errs.add(m.group(1))
                 out.append("q%d:fault:[%s]:conn=%d" % (sid, ",".join(sorted(errs)), conn))
+                # what h3 itself put on the faulted stream (bytes, FIN, RESET_STREAM / STOP_SENDING codes): compared with
+                # the model only (the specification has no opinion: `*`)
+                t, flags = tx.get(sid, ("-", ""))
+                out.append("q%d:wire:tx=%s%s" % (sid, t, "".join("," + f for f in flags.split(",") if f and f != "writing")))
             else:
                 head = [("%s=%s" % (op, "ok" if r.startswith("ok") else r)) for op, r in res if op in ("res", "rr")]
                 rm = ["rm=%s" % r for op, r in res if op == "rm"]
